@@ -160,7 +160,8 @@ class BaseEngineLineOCR(object):
                     elif self.model_type == "ctc":
                         all_logit_coords[ids] = [
                             int(self.line_padding_px // self.net_subsampling),
-                            int((self.line_padding_px + lines[ids].shape[1]) // self.net_subsampling)]
+                            min(int((self.line_padding_px + lines[ids].shape[1]) // self.net_subsampling),
+                                line_logits.shape[0])]  # a line cropped to the engine maximum has fewer frames
 
                     elif self.model_type == "transformer":
                         all_logit_coords[ids] = [0, len(transcription)]
